@@ -120,7 +120,8 @@ static bool SUSPECT = false;      // some honest party failed to receive somethi
 static void report_suspects(Party &P, const Scn &S, const std::string &log) {
 	std::istringstream is(log); std::string l; int cnt = 0;
 	while (std::getline(is, l)) {
-		if (l.find("failed") == std::string::npos || l.find("receiving") == std::string::npos) continue;
+		bool rx_failed = l.find("failed") != std::string::npos && l.find("receiving") != std::string::npos;
+		if (!rx_failed && l.find("no share received") == std::string::npos && l.find("no shares received") == std::string::npos) continue;
 		size_t pos = l.rfind("P_"); if (pos == std::string::npos) continue;
 		size_t j = strtoul(l.c_str() + pos + 2, 0, 10);
 		// PedersenVSS's built-in deviations never withhold a message; the DKG ones may (a faulty party leaves the protocol)
@@ -128,8 +129,19 @@ static void report_suspects(Party &P, const Scn &S, const std::string &log) {
 		if (j < S.n && !may_be_silent && cnt++ < 3) P.say("SUSPECT " + l);
 	}
 }
+static const Scn *CUR = 0;
 static void collect_suspects(const RunResult &rr, const std::vector<size_t> &H) {
-	for (size_t i : H) for (const std::string &l : rr.lines[i]) if (l.compare(0, 8, "SUSPECT ") == 0) SUSPECT = true;
+	for (size_t i : H) for (const std::string &l : rr.lines[i]) {
+		if (l.compare(0, 8, "SUSPECT ") == 0) SUSPECT = true;
+		// time-outs reported by the channel layers themselves: "RBC(j): timeout delivering from X", "aiounicast_select(j): timeout for X"
+		if ((l.compare(0, 4, "RBC(") == 0 || l.compare(0, 18, "aiounicast_select(") == 0) && l.find("timeout") != std::string::npos) {
+			size_t e = l.find_last_of("0123456789"); if (e == std::string::npos) { SUSPECT = true; continue; }
+			size_t b = e; while (b > 0 && isdigit((unsigned char)l[b - 1])) b--;
+			size_t x = strtoul(l.substr(b, e - b + 1).c_str(), 0, 10);
+			bool may_be_silent = CUR && CUR->kind != "vss" && (CUR->faulty.count(x) || CUR->faulty2.count(x));
+			if (!may_be_silent) SUSPECT = true;
+		}
+	}
 	if (rr.deadline_hit) SUSPECT = true;
 }
 
@@ -445,6 +457,7 @@ static void pure_records(unsigned count) {
 // ================================================================================================ scheduler
 static void run_scenario(const Scn &S, time_t T) {
 	gen() = SplitMix64((SEED * 0x9E3779B97F4A7C15ULL) ^ (S.id * 0xD1B54A32D192ED03ULL + 99));
+	CUR = &S;
 	if (S.kind == "vss") vss_scenario(S, T);
 	else if (S.kind == "dkg") dkg_scenario(S, T);
 	else if (S.kind == "cgjkr") cgjkr_scenario(S, T);
